@@ -17,6 +17,7 @@ def main():
     e.add_argument('path')
     x = sub.add_parser('extract', help='extract facts and print the path')
     x.add_argument('--fresh', action='store_true')
+    sub.add_parser('inventory', help='(re)write affcheck/inventory.txt: the functions known to the rule set; later private helpers are inlined')
     a = ap.parse_args()
     if a.cmd == 'run':
         sys.exit(core.run_property(a.prop.upper(), a.tier))
@@ -28,6 +29,17 @@ def main():
     if a.cmd == 'extract':
         p, h, info = engine.ensure_facts(fresh=a.fresh)
         print(p)
+        return
+    if a.cmd == 'inventory':
+        from .mir import Facts, _qname_of_dict
+        p, h, info = engine.ensure_facts()
+        doc = json.load(open(p))
+        names = sorted({_qname_of_dict(b) for b in doc['bodies'] if b['kind'] != 'Closure'})
+        with open(os.path.join(os.path.dirname(os.path.abspath(__file__)), 'inventory.txt'), 'w') as f:
+            f.write('# functions of the analysed crate known to the rule set (qnames). Non-public functions that are NOT listed here\n'
+                    '# (helpers extracted later) are inlined into their callers before the rules run.\n')
+            f.write('\n'.join(names) + '\n')
+        print(len(names), 'names')
         return
     if a.cmd == 'explain':
         d = json.load(open(a.path))
